@@ -207,7 +207,11 @@ class World:
         out = []
         for key in list(self.handles):
             tx = self.handles[key]["tx"]
-            for route in self.routes(key):
+            try:
+                routes = self.routes(key)
+            except Exception:           # noqa: the bookkeeping of routes lost track (only after the library misbehaved): the plain view still works
+                routes = ["view"]
+            for route in routes:
                 v, size, strides, exc = [], -1, [], ""
                 try:
                     x = self.fetch(key, route)
@@ -477,6 +481,8 @@ class World:
         (references on the way are followed: the library dereferences them implicitly)"""
         tx, v, b = self.handles[key]["tx"], self.shadow[key], key[0]
         path, acc = [], []
+        if not steps:               # the object itself (in-place update of a retained handle)
+            return [], [], None, tx, v, b
         for n, s_ in enumerate(steps):
             if tx["k"] in ("ref", "uref"):
                 if v["null"]:
@@ -495,7 +501,7 @@ class World:
                 acc.append(s_)
         return path, acc, steps[-1], tx, v, b
 
-    def set(self, key, allow=("null", "alias", "new", "foreign"), want=None, np_forms=True, target=None, no_from=False):
+    def set(self, key, allow=("null", "alias", "new", "foreign"), want=None, np_forms=True, target=None, no_from=False, from_p=0.35):
         """assign a fitting value to a random element reachable from object key, through a random route"""
         rng = self.rng
         ep = self.elem_paths(key, want) if target is None else self.explicit_path(key, target)
@@ -504,13 +510,15 @@ class World:
         path, acc, last, etx, cur, b = ep
         route = rng.choice([r for r in self.routes(key) if r not in ("nplike", "hybrid")])
         frm = None
-        if etx["k"] in ("struct", "arr") and not no_from and rng.random() < 0.35:
+        if etx["k"] in ("struct", "arr") and not no_from and rng.random() < from_p:
             # the value is an object of the same type and skeleton living in some buffer (possibly at the same offset elsewhere)
             sb = rng.randrange(len(self.bufs))
-            val = self.gen(("null", "alias", "new") if sb != b else allow, np_forms=np_forms, like_buf=b).value(etx, sb, like=cur)
+            g = self.gen(("null", "alias", "new") if sb != b else allow, np_forms=np_forms, like_buf=b)
+            g.permute_fields = True
+            val = g.value(etx, sb, like=cur)
             dest_abs = None
             try:
-                dest_abs = int(self.walk(self.fetch(key, "view"), acc + [last])._offset)
+                dest_abs = int(self.walk(self.fetch(key, "view"), acc + ([last] if last else []))._offset)
             except Exception:       # noqa
                 pass
             sk = self.new(etx, sb, value=val, at=dest_abs if (sb != b and rng.random() < 0.5) else None)
@@ -523,7 +531,9 @@ class World:
         exc = ""
         try:
             parent = self.walk(self.fetch(key, route), acc)
-            if last[0] == "f":
+            if last is None:
+                parent._update(py)          # the documented in-place update of an existing object, on the retained handle
+            elif last[0] == "f":
                 setattr(parent, self.ns.fname(last[1]), py)
             else:
                 idx = tuple(last[1])
@@ -554,14 +564,22 @@ class World:
                 # handle for the new value position: re-read through the library (only needed when referents were created)
                 x = None
                 if X.has_refs(etx):
-                    x = self.walk(self.fetch(key, route), acc + [last])
+                    x = self.walk(self.fetch(key, route), acc + ([last] if last else []))
                 inp2 = inp if frm is None else self.copy_input(etx, self.shadow[frm], frm[0], frm[0] == b)
-                nv = self.to_shadow(etx, inp2, x, b, key, acc + [last])
+                nv = self.to_shadow(etx, inp2, x, b, key, acc + ([last] if last else []))
                 self.shadow[okey] = _set_at(self.handles[okey]["tx"], self.shadow[okey], lp, nv)
             ok = self.safe_register(upd)
         extra = {} if frm is None else {"from": [frm[0] + 1, frm[1]]}
         self.record("set", b=key[0] + 1, a=key[1], path=path, val=inp, route=route, exc=exc, form=_form(py), **extra)
         return ok and not exc
+
+    def update(self, key, allow=("null", "alias", "new", "foreign"), from_p=0.35):
+        """in-place update of the whole object through a retained handle (T._update, the documented way to give an existing
+        object new values), with plain data or with another object of the same type and size"""
+        tx, v = self.handles[key]["tx"], self.shadow[key]
+        if tx["k"] not in ("struct", "arr") or X.has_slack(tx, v) or (tx["k"] == "arr" and not v["it"]) or (tx["k"] == "struct" and not tx["f"]):
+            return None
+        return self.set(key, allow=allow, target=[], from_p=from_p)
 
     # ------------------------------------------------------------------ misuse (C11)
     def all_elems(self, key, limit=60):
@@ -648,6 +666,35 @@ class World:
                 sh[ax] = sh[ax] + rng.choice([1, 2]) if rng.random() < 0.6 or sh[ax] < 2 else sh[ax] - 1
                 if any(d >= 0 and d != n for d, n in zip(etx["sh"], sh)) and rng.random() < 0.5:
                     pass        # also static dimensions may be violated
+                if not X.has_refs(etx) and any(d < 0 for d in etx["sh"]) and rng.random() < 0.3:
+                    # an xobject of the same array class with ANOTHER shape (preferably one that needs the same number of bytes)
+                    sh2 = None
+                    for _ in range(30):
+                        cand_sh = [d if decl >= 0 else rng.choice([0, 1, 2, 3, 4, 5]) for d, decl in zip(cur["sh"], etx["sh"])]
+                        if cand_sh != list(cur["sh"]):
+                            sh2 = cand_sh
+                            if X.is_static(etx["it"]) and ((int(np.prod(cand_sh)) * etx["it"].get("w", 8) + 7) // 8 == (int(np.prod(cur["sh"])) * etx["it"].get("w", 8) + 7) // 8):
+                                break
+                    if sh2 is not None:
+                        n2 = int(np.prod(sh2))
+                        g2 = self.gen(("null",), np_forms=False, dims_p=0)
+                        vs2 = [g2.value(etx["it"], key[0]) for _ in range(n2)]
+                        inp2 = {"sh": sh2, "it": [v[0] for v in vs2]}
+                        py2 = X.nested([v[1] for v in vs2], sh2) if len(sh2) == 1 else None
+                        if py2 is None:
+                            o = np.empty(sh2, dtype=object)
+                            for i_, idx_ in enumerate(np.ndindex(*sh2)):
+                                o[idx_] = vs2[i_][1]
+                            py2 = o
+                        sk = self.new(etx, rng.randrange(len(self.bufs)), value=(inp2, py2))
+                        if sk is None:
+                            return False
+                        srcobj = self.fetch(sk, "ctor")
+                        detail = f"{key} {acc}{last} := xobject of the same class with shape {sh2} for stored shape {cur['sh']}"
+                        tag = f"{len(sh2)}d-xobject-other-shape"
+                        attempt(lambda: assign(key, acc, last, srcobj))
+                        found = True
+                        break
                 if etx["it"]["k"] == "sc" and rng.random() < 0.35:
                     # an ndarray of HIGHER rank whose leading dimensions equal the stored shape
                     extra_dim = rng.choice([2, 3])
